@@ -1,4 +1,23 @@
+//! h_parse: C41 (parser terminates / never panics / error locations inside the input),
+//! C42 (declaration for-loops expand like hand-written copies), C46 (both event-file readers read
+//! the same events) — see DESIGN.md §3.
+
+mod c41;
+mod c42;
+mod c46;
+
+/// Wall cap of a sweep in seconds. `VERIF_CAP_S` overrides the tier's default (diagnostic use on an
+/// overloaded machine; the caps of the two tiers are the defaults).
+pub fn cap_secs(default: u64) -> u64 {
+    std::env::var("VERIF_CAP_S").ok().and_then(|s| s.parse().ok()).unwrap_or(default)
+}
+
 fn main() {
     let args = mc::parse_args();
-    mc::machinery_error(&format!("{} is not built yet", args.prop));
+    match args.prop.as_str() {
+        "C41" => c41::run(&args),
+        "C42" => c42::run(&args),
+        "C46" => c46::run(&args),
+        other => mc::machinery_error(&format!("h_parse serves C41, C42 and C46, not {other}")),
+    }
 }
